@@ -71,8 +71,29 @@ func c17Structured() []string {
 	return base
 }
 
+// every pair of "dangerous" bytes right after the leading slash, each raw or percent-encoded
+// (upper / lower case hex): a transformation applied AFTER the filter (decoding, re-encoding,
+// normalising) would turn one of these into an off-origin target
+func c17Encoded() []string {
+	danger := []byte{'/', '\\', '\t', '\n', '\r', ' ', 0, '@', ':', '?', '#', '.', '%', 'a'}
+	var forms []string
+	for _, b := range danger {
+		forms = append(forms, string([]byte{b}), fmt.Sprintf("%%%02X", b), fmt.Sprintf("%%%02x", b))
+	}
+	var out []string
+	for _, f1 := range forms {
+		out = append(out, "/"+f1+"evil.com/x")
+		for _, f2 := range forms {
+			out = append(out, "/"+f1+f2+"evil.com/x")
+		}
+	}
+	// double encoding and over-long forms
+	out = append(out, "/%252Fevil.com", "/%252f%252fevil.com", "/%25%32%46evil.com", "/%c0%afevil.com", "/%e0%80%afevil.com", "/%u002Fevil.com", "/%2F%2Fevil.com/%2e%2e", "/a/%2e%2e/%2Fevil.com")
+	return out
+}
+
 func TestVerif_C17(t *testing.T) {
-	res := newVerifResult("login_destination strings: exhaustive over {/ \\\\ . a TAB ? # % : @}^<=L (L=4 quick, 5 thorough) through getLoginDestination+http.Redirect, a structured adversarial list and seeded random strings through POST /api/v0/login (text/html); non-trivial = the filter accepted the string (redirect target differs from the profile page); distinct by (input, Location)")
+	res := newVerifResult("login_destination strings: exhaustive over {/ \\\\ . a TAB ? # % : @}^<=L (L=4 quick, 5 thorough) through getLoginDestination+http.Redirect, a structured adversarial list, every raw/percent-encoded pair of dangerous bytes after the leading slash, and seeded random strings through POST /api/v0/login (text/html); non-trivial = the filter accepted the string (redirect target differs from the profile page); distinct by (input, Location)")
 	// a fake OAuth2 provider for the federated-login flow
 	provider := httptest.NewServer(http.HandlerFunc(func(w http.ResponseWriter, r *http.Request) {
 		w.Header().Set("Content-Type", "application/json")
@@ -142,9 +163,9 @@ func TestVerif_C17(t *testing.T) {
 	}
 	res.Exhaustive = true
 	// (2) through the real login handler
-	httpCases := c17Structured()
+	httpCases := append(c17Structured(), c17Encoded()...)
 	rng := verifRand()
-	alpha := []byte("/\\.a\t?#%:@\r\n\x00 e;=&+\x7f\xc3\xa9A0-_~")
+	alpha := []byte("/\\.a\t?#%:@\r\n\x00 e;=&+\x7f\xc3\xa9A0-_~25FfCc")
 	for i := 0; i < nRandom; i++ {
 		n := 1 + rng.Intn(12)
 		b := make([]byte, n)
